@@ -113,6 +113,7 @@ var props = map[string]propSpec{
 		{Pkg: "registration", Fn: "VerifC13WrappedFetchFaults", Validate: 8, MustReach: []string{"fault-hit", "issued", "not-issued"}},
 		{Pkg: "registration", Fn: "VerifC13TokenCreateFaults", Validate: 4, MustReach: []string{"fault-hit", "created", "failed"}},
 		{Pkg: "registration", Fn: "VerifC13TokenFetchFaults", Validate: 8, MustReach: []string{"fault-hit", "issued", "not-issued"}},
+		{Pkg: "registration", Fn: "VerifC13DuplicateRecordFaults", Validate: 8, MustReach: []string{"fault-hit", "issued", "not-issued"}},
 		{Pkg: "registration", Fn: "VerifC13NodeSideFaults", Validate: 8, MustReach: []string{"fault-hit", "created", "creation-failed", "handled", "handling-failed"}},
 		{Pkg: "tls", Fn: "VerifC13GenerateFaults", Validate: 8, MustReach: []string{"fault-hit", "generated", "failed"}},
 	}, Assumptions: with("single fault per call; a failing operation fails without applying (faults that lie and crashes mid-call are outside the claim)", "the failing operation's index and error kind (generic, ErrNotFound, context.Canceled) are symbolic; each harness asserts that the call makes no more storage operations than the index range covers (the unwinding check of the fault position)"),
